@@ -961,6 +961,9 @@ func cmdReplay(path string) int {
 }
 
 func writeEvidence(id, tier string, seed int64, pc *PropCfg, bo *buildOut, tot *Result, distinct, proj, states int, wall time.Duration, nviol, raceRuns int, infra []string) {
+	if os.Getenv("VERIF_NO_EVIDENCE") != "" {
+		return // runs against a deliberately broken tree (tool/try_mut.sh) leave the evidence alone
+	}
 	hours := wall.Hours()
 	if hours <= 0 {
 		hours = 1e-9
